@@ -762,10 +762,10 @@ def main():
               ("hist", "histories-3x3", dict(mc=3, obj=False, mf=0, mb=2, defs=True, events=3))]
   # simulated: histories over <= 4 classes (bases bare or K[int]) with 8 events in all read modes;
   # hierarchies of 4 classes with all spellings and 3 written bases
-  xsims = [("hist", "histories-sim", 3000 if thorough else 400,
+  xsims = [("hist", "histories-sim", 2000 if thorough else 400,
             dict(mc=4, obj=False, mf=0, mb=2, spellings=(0, 1), generic=True, defs=True, events=8,
                  modes=ALL_MODES)),
-           ("gen", "generic-bases-sim", 2000 if thorough else 250,
+           ("gen", "generic-bases-sim", 1200 if thorough else 250,
             dict(mc=4, obj=False, mf=1, mb=3, spellings=sp, generic=True))]
   import concurrent.futures as cf
   jobs = {}
